@@ -384,7 +384,6 @@ type kase struct {
 	closeRetOnce  sync.Once
 	subDone       chan struct{}
 	closerDone    chan struct{}
-	attemptCtr    int32
 
 	lis *bufconn.Listener
 	srv *grpc.Server
@@ -1161,8 +1160,9 @@ func runCase(r *vlib.Run, trial int, spec caseSpec) {
 	}()
 }
 
-// judgeStuck: no event for the whole grace period. A violation only when the
-// stuck state is attributable to the library.
+// judgeStuck: no event for the whole grace period, or a call still pending a
+// grace period after Close / cancel. A violation only when the stuck state is
+// attributable to the library.
 func (c *kase) judgeStuck() {
 	buf := make([]byte, 1<<20)
 	dump := string(buf[:runtime.Stack(buf, true)])
@@ -1388,7 +1388,7 @@ func main() {
 		Rule: "Each case: the real BaseClient / CacheClient, bare or wrapped in the real ReconnectClient (disconnect and reset callbacks recorded), over a scripted client.Impl registered under its own type name; the Impl wraps one of three transports (purely scripted; the repository's client/fake Client; the real client/gnmi Client via NewFromConn against a scripted bufconn gNMI server) and plays a per-attempt script: fail in New / fail in Subscribe / deliver k numbered messages (1-3 notifications each; updates, deletes, syncs on gnmi) then error / EOF (io.EOF or ErrStopReading) / block. The transport is well-behaved (blocking reads return on context cancellation and on Close) and differs by seed in how many already received messages it still hands over after cancel/Close (0-3, or all). Close (1 in 7: cancellation of the Subscribe context, then Close) is issued from another goroutine at a FORCED position (the Impl or callback parks there until the harness has entered Close): never subscribed, before Subscribe (sequential / concurrent), unforced after a seeded delay (timed), attempt start, inside Impl.Subscribe, after the j-th message (first / middle / last), in a blocked read, inside the disconnect callback, during the backoff sleep, right after reset. The quick tier enumerates every wrapper x transport x position x outcome kind (x first / second attempt) once, seeded random scripts (up to 7 attempts) beyond. A case is distinct non-trivial when Close or cancel was issued and both returns were observed, by the hash of its description and its event-kind trace.",
 		Assumptions: []string{
 			"client.RetryBaseDelay/RetryMaxDelay are set to 10/20 ms before any ReconnectClient is created; the first backoff of each client still comes from the backoff library's 500 ms default (250-750 ms) and is tolerated",
-			"termination is restated as bounded progress: a violation only when no event at all was recorded for 20 s (1000 x RetryMaxDelay) after Close/cancel (or after an ended attempt of an unclosed client), the process heartbeat kept running, and the goroutine dump shows the awaited call; otherwise inconclusive. The statement's 'within the current backoff interval' is only reported as latency histograms",
+			"termination is restated as bounded progress: a violation only when a call is still pending 20 s (1000 x RetryMaxDelay) after Close/cancel was issued, or no event at all was recorded for 20 s (after Close/cancel, or after an ended attempt of an unclosed client), AND the process heartbeat kept running in that window AND the goroutine dump shows the awaited call; otherwise inconclusive. The statement's 'within the current backoff interval' is only reported as latency histograms (close_to_*_return_*)",
 			"the scripted transport is well-behaved by construction: its blocking reads return on context cancellation and on Impl.Close; parks are released by the harness as soon as it has entered Close (bare clients: for Closes issued before the client owns an Impl, after that refused Close returned)",
 			"Close of a bare BaseClient/CacheClient that does not yet own an Impl returns ErrClientInit and has no effect (documented); the harness issues a follow-up Close at the next read and judges termination and clause 5 on that one",
 			"timing clauses are one-sided: disconnect->reset and disconnect->retry gaps must be >= 2.5 ms (smallest drawable backoff is 5 ms; load only lengthens them). That reset follows the backoff is taken from the property's mechanism anchor (disconnect, ctx check, backoff, reset)",
